@@ -330,6 +330,43 @@ Fixpoint evalFB (rho : env) (t : fx) : option bool :=
   | _ => None
   end.
 
+(** * The Fortran expression grammar (F2008 R701-R722 without defined operators, concatenation and .eqv.) as a
+    derivation relation: [G l ts t] = the token list [ts] is a phrase of level [l] with parse tree [t].
+    LPrim primary; LMul mult-operand (right-associative power); LAdd add-operand (left-associative * and /);
+    L2 level-2-expr (optional leading sign, left-associative + and -); L4 level-4-expr (at most one relational
+    operator); LAndOp and-operand (optional .not.); LOrOp or-operand (chain of .and.); LExpr chain of .or. *)
+Inductive lvl := LPrim | LMul | LAdd | L2 | L4 | LAndOp | LOrOp | LExpr.
+
+Inductive G : lvl -> list token -> fx -> Prop :=
+| G_int n : 0 <= n -> G LPrim [TInt n] (FInt n)
+| G_var x : G LPrim [TVar x] (FVar x)
+| G_true : G LPrim [TTrue] (FLog true)
+| G_false : G LPrim [TFalse] (FLog false)
+| G_paren ts t : G LExpr ts t -> G LPrim (TLP :: ts ++ [TRP]) t
+| G_call0 f : G LPrim [TVar f; TLP; TRP] (FCall f [])
+| G_call f ts args : Gargs ts args -> G LPrim (TVar f :: TLP :: ts ++ [TRP]) (FCall f args)
+| G_mul_prim ts t : G LPrim ts t -> G LMul ts t
+| G_pow ts1 t1 ts2 t2 : G LPrim ts1 t1 -> G LMul ts2 t2 -> G LMul (ts1 ++ TPow :: ts2) (FBin BPow t1 t2)
+| G_add_mul ts t : G LMul ts t -> G LAdd ts t
+| G_times ts1 t1 ts2 t2 : G LAdd ts1 t1 -> G LMul ts2 t2 -> G LAdd (ts1 ++ TStar :: ts2) (FBin BMul t1 t2)
+| G_div ts1 t1 ts2 t2 : G LAdd ts1 t1 -> G LMul ts2 t2 -> G LAdd (ts1 ++ TSlash :: ts2) (FBin BDiv t1 t2)
+| G_l2_add ts t : G LAdd ts t -> G L2 ts t
+| G_neg ts t : G LAdd ts t -> G L2 (TMinus :: ts) (FNeg t)
+| G_pos ts t : G LAdd ts t -> G L2 (TPlus :: ts) t
+| G_plus ts1 t1 ts2 t2 : G L2 ts1 t1 -> G LAdd ts2 t2 -> G L2 (ts1 ++ TPlus :: ts2) (FBin BAdd t1 t2)
+| G_minus ts1 t1 ts2 t2 : G L2 ts1 t1 -> G LAdd ts2 t2 -> G L2 (ts1 ++ TMinus :: ts2) (FBin BSub t1 t2)
+| G_l4_l2 ts t : G L2 ts t -> G L4 ts t
+| G_rel op ts1 t1 ts2 t2 : G L2 ts1 t1 -> G L2 ts2 t2 -> G L4 (ts1 ++ TRel op :: ts2) (FCmp op t1 t2)
+| G_andop_l4 ts t : G L4 ts t -> G LAndOp ts t
+| G_not ts t : G L4 ts t -> G LAndOp (TNot :: ts) (FNot t)
+| G_orop_andop ts t : G LAndOp ts t -> G LOrOp ts t
+| G_and ts1 t1 ts2 t2 : G LOrOp ts1 t1 -> G LAndOp ts2 t2 -> G LOrOp (ts1 ++ TAnd :: ts2) (FBin BAnd t1 t2)
+| G_expr_orop ts t : G LOrOp ts t -> G LExpr ts t
+| G_or ts1 t1 ts2 t2 : G LExpr ts1 t1 -> G LOrOp ts2 t2 -> G LExpr (ts1 ++ TOr :: ts2) (FBin BOr t1 t2)
+with Gargs : list token -> list fx -> Prop :=
+| Gargs_one ts t : G LExpr ts t -> Gargs ts [t]
+| Gargs_cons ts t tss args : G LExpr ts t -> Gargs tss args -> Gargs (ts ++ TComma :: tss) (t :: args).
+
 (** * Executable reference reader of Fortran expressions (precedence climbing, fuel-bounded).
     Levels: 0 equiv-operand chain (.or.), 1 or-operand chain (.and.), 2 and-operand ([.not.] level-4),
     3 level-4 (one optional relational operator), 4 level-2 ([sign] add-operand {(+|-) add-operand}),
